@@ -367,9 +367,16 @@ impl Operator for VectorJoinOperator {
             return Ok(None);
         }
 
-        // Ensure we have results to process (advances left if needed)
-        if self.current_result_position >= self.current_results.len() && !self.advance_left()? {
-            return Ok(None);
+        // Ensure we have results to process (advances left if needed). When the previous
+        // chunk ended exactly at the end of a left row's results, that row is done: move on
+        // to the next one instead of searching the same row again.
+        if self.current_result_position >= self.current_results.len() {
+            if self.current_left_chunk.is_some() {
+                self.current_left_row += 1;
+            }
+            if !self.advance_left()? {
+                return Ok(None);
+            }
         }
 
         // Get left chunk schema for output (now guaranteed to have a chunk)
@@ -576,6 +583,51 @@ mod tests {
 
         assert_eq!(results.len(), 1);
         assert_eq!(results[0], n1);
+    }
+
+    #[test]
+    fn test_vector_join_chunk_ends_with_left_row() {
+        let store = StdArc::new(LpgStore::new());
+        let mut nodes = Vec::new();
+        for i in 0..4 {
+            let n = store.create_node(&["Item"]);
+            store.set_node_property(n, "vec", Value::Vector(vec![i as f32, 0.0].into()));
+            nodes.push(n);
+        }
+        let left = Box::new(NodeListOperator::new(vec![nodes[0], nodes[1]], 1024));
+        // two matches per left row and chunks of two rows: every chunk ends with a left row
+        let mut join = VectorJoinOperator::entity_to_entity(
+            left,
+            StdArc::clone(&store),
+            0,
+            "vec",
+            "vec",
+            2,
+            DistanceMetric::Euclidean,
+        )
+        .with_chunk_capacity(2);
+
+        let mut pairs = Vec::new();
+        let mut calls = 0;
+        while let Ok(Some(chunk)) = join.next() {
+            calls += 1;
+            assert!(calls <= 4, "the join does not terminate");
+            for i in 0..chunk.row_count() {
+                pairs.push((
+                    chunk.column(0).unwrap().get_node_id(i).unwrap(),
+                    chunk.column(1).unwrap().get_node_id(i).unwrap(),
+                ));
+            }
+        }
+        assert_eq!(
+            pairs,
+            vec![
+                (nodes[0], nodes[0]),
+                (nodes[0], nodes[1]),
+                (nodes[1], nodes[1]),
+                (nodes[1], nodes[0]),
+            ]
+        );
     }
 
     #[test]
